@@ -52,7 +52,7 @@ class Kernel(Case):
 
     def inputs(self, mk):
         p = self.params
-        sh = shell_spec(mk, "A", p["l"], p["K"], p["M"])
+        sh = shell_spec(mk, "A", p["l"], p["K"], p["M"], zeros=p.get("zeros", ()))
         return dict(sh=sh, pts=_points(mk, sh, p.get("where", "general"), p.get("npts", 1)))
 
     def code(self, I, mk):
@@ -206,6 +206,10 @@ def cases(tier):
             out.append(Value(l=l, K=2, M=1, where=where))
     for l in range(lmax + 1):
         out.append(Value(l=l, K=2 if l < 3 else 1, M=2 if l < 3 else 1))
+    # generally contracted shells with exact zeros in the coefficient matrix
+    for backend in ("general", "direct"):
+        out.append(Kernel(l=1, K=3, M=2, orders=[[0, 0, 0], [1, 0, 0], [0, 2, 1]], zeros=[[0, 1], [2, 0]], backend=backend))
+        out.append(Kernel(l=0, K=2, M=2, orders=[[0, 0, 0], [0, 1, 1]], zeros=[[0, 1], [1, 0]], backend=backend))
     for o in ([3, 0, 0], [0, 3, 0], [1, 0, 4], [2, 3, 2]):
         out.append(DirectRejects(l=2, orders=o, backend="direct"))
     out.append(DirectRejects(l=1, orders=[1, 0, 0], backend="Direct"))
